@@ -65,7 +65,7 @@ def mc_cfg(name, branches, txs, faults, plain, dev=()):
     return _write_cfg(name,
                       "SPECIFICATION MCSpec\nCONSTANTS\n KnownDeviations = %s\n MCBranches = %s\n MCTxs = {%s}\n"
                       " MCFaults = %d\n MCPlain = %d\nINVARIANT TypeOK\nINVARIANT TerminalOutcomes\n"
-                      "INVARIANT NeverDuplicates\nPROPERTY DiscardKeepsHeads\nPROPERTY CommittedRefuses\n"
+                      "INVARIANT NeverDuplicates\nINVARIANT ReapplyLaw\nPROPERTY DiscardKeepsHeads\nPROPERTY CommittedRefuses\nPROPERTY HistoryKept\n"
                       "CHECK_DEADLOCK FALSE\n" % (_set(dev), _set(branches), ", ".join(str(t) for t in txs), faults, plain))
 
 
@@ -326,9 +326,16 @@ def run(tier, seed):
     fired = sum(c for k, c in out.classes.items() if "!" in k) + \
         sum(1 for _, _, d in out.failures if any((d or {}).get("fault_fired", [])))
     modes = {}
+    ops = {}
     for _, lines in traces:
         m = json.loads(lines[0]).get("mode")
         modes[m] = modes.get(m, 0) + 1
+        for ln in lines:
+            e = json.loads(ln)
+            k = e.get("op", "?") + ("/" + e["res"] if e.get("res") else "")
+            ops[k] = ops.get(k, 0) + 1
+    if not ops.get("reapply/ok") or not ops.get("reapply/err"):
+        raise vlib.Inconclusive("the recorded histories hold no accepted and refused `wrgl reapply` (vacuous): %s" % ops)
     cov = {
         "evaluations": out.total + n_traces,
         "distinct_nontrivial": nontrivial + known_fail,
@@ -346,6 +353,7 @@ def run(tier, seed):
         "traces_validated_against_impl": n_traces - len(rejections),
         "trace_events": n_events,
         "traces_by_mode": modes,
+        "trace_operations": ops,
         "trace_lines_needing_named_deviation": dev_kinds,
         "scenarios": n_scn,
         "scenarios_with_a_fired_fault": fired,
